@@ -325,6 +325,68 @@ def check_include(sb, p, loc, res):
     res.cover('include_outcomes', ('ok' if err is None else 'refused'))
 
 
+def include_history(res):
+    """Loads in ONE process whose cart file-name strings are equal while the permitted root differs: the same relative
+    name from two working directories, and the same absolute path under two HOME settings (inside / outside a PICO-8
+    carts folder). Every order; each load must obey the root that holds for IT."""
+    from pico8.game import file as p8file
+    head = b'pico-8 cartridge // http://www.pico-8.com\nversion 33\n__lua__\n'
+    sb = Sandbox()
+    cwd0 = os.getcwd()
+    home0 = os.environ.get('HOME')
+    try:
+        pa, pb = os.path.join(sb.root, 'projA'), os.path.join(sb.root, 'projB')
+        for d in (pa, pb):
+            os.makedirs(d)
+            open(os.path.join(d, 'lib.lua'), 'wb').write(b'v=1\n')
+        open(os.path.join(pa, 'cart.p8'), 'wb').write(head + b'#include lib.lua\n')
+        open(os.path.join(pb, 'cart.p8'), 'wb').write(head + b'#include ../projA/lib.lua\n')
+        home2 = os.path.join(sb.root, 'home2')
+        os.makedirs(home2)
+        game = os.path.join(sb.carts, 'game', 'game.p8')
+        open(game, 'wb').write(head + b'#include ../x.lua\n')      # fine below the carts root of HOME=sb.home only
+        # (step name, cwd, HOME, path argument, permitted root)
+        steps = {
+            'A-rel': (pa, sb.home, 'cart.p8', pa),
+            'B-rel': (pb, sb.home, 'cart.p8', pb),
+            'game-home1': (sb.root, sb.home, game, sb.carts),
+            'game-home2': (sb.root, home2, game, os.path.dirname(game)),
+        }
+        for order in itertools.permutations(sorted(steps)):
+            for rounds in (1, 2):
+                seq = list(order) * rounds
+                for name in seq:
+                    cwd, home, arg, root = steps[name]
+                    os.chdir(cwd)
+                    os.environ['HOME'] = home
+                    res.evaluations += 1
+                    with OpenTracer(sb) as tr:
+                        try:
+                            p8file.from_file(arg)
+                        except BaseException:
+                            pass
+                    os.chdir(cwd0)
+                    cartpath = os.path.realpath(os.path.join(cwd, arg))
+                    for rp, mode in tr.log:
+                        if rp != cartpath and not under(rp, root):
+                            res.violation('C12|include-history|opened-outside|%s' % name,
+                                          'in the load sequence %r, loading %r (cwd %s, HOME %s) opened %s, outside its include '
+                                          'root %s' % (seq[:seq.index(name) + 1], arg.replace(sb.root, '<SB>'),
+                                                       os.path.relpath(cwd, sb.root), os.path.relpath(home, sb.root),
+                                                       os.path.relpath(rp, sb.root), os.path.relpath(root, sb.root)),
+                                          {'kind': 'include-history'})
+                            return
+                res.nontriv(('history', order, rounds))
+        res.outcome(('include-history',))
+    finally:
+        os.chdir(cwd0)
+        if home0 is None:
+            os.environ.pop('HOME', None)
+        else:
+            os.environ['HOME'] = home0
+        sb.close()
+
+
 def strings(tier, sb):
     n = BOUNDS[tier]['atoms']
     for k in range(0, n + 1):
@@ -340,11 +402,15 @@ def strings(tier, sb):
 
 def shards(tier, seed):
     n = 32 if tier == 'quick' else 96
-    return [('strs', tier, k, n) for k in range(n)]
+    return [('strs', tier, k, n) for k in range(n)] + [('history',)]
 
 
 def run_shard(item):
     res = ShardResult()
+    if item[0] == 'history':
+        include_history(res)
+        res.sample({'history': 'cart.p8 loaded from projA then projB (relative name), game.p8 under two HOME settings; all 24 orders'})
+        return res
     _, tier, k, n = item
     sb = Sandbox()
     try:
@@ -382,6 +448,9 @@ def run_shard(item):
 
 def replay(case):
     res = ShardResult()
+    if case.get('kind') == 'include-history':
+        include_history(res)
+        return [(s, v[0]) for s, v in res.violations.items()]
     sb = Sandbox()
     try:
         p = case['p']
